@@ -304,10 +304,16 @@ CLAIMS["C08"] = dict(
          "equals Type::type_check of the wrapper on all ~4300 (cast, child type) pairs, so the unchecked constructor "
          "attaches the true type; the validity predicates the gates rely on (is_valid, check_timelocks / "
          "check_duplicate_keys, is_safe_nonmalleable) agree with the truth-table oracle on a family of concrete policies "
-         "(rule shared with C18); the policy cache's order and the context limit pairing (shared with C19 / C09).",
+         "(rule shared with C18); the policy cache's order and the context limit pairing (shared with C19 / C09); and end "
+         "to end, by evaluating Policy::compile itself (dynamic programme, casts, policy cache as a BTreeMap ordered by "
+         "the policy's own Ord, f64 costs) on ~18 whole policies (thorough: ~60; both signature contexts): every returned "
+         "miniscript lifts (evaluated) to the input policy's truth table, is B / signed / non-malleable, passes "
+         "validate(&Ctx::SANE) and re-parses from its text; the evaluated outputs coincide with the real compiler's on "
+         "the policies compared by hand.",
     note="Trusted: spec/semantics.py + spec/policy_sem.py; C05/C06 (types are sound), C07 (lift), C09 (limits used by "
          "check_local_validity); rustc THIR; evaluator. Cost optimality, ExtData attached by casts (C09 decides the "
-         "rules), taproot key extraction / leaf enumeration / Huffman tree and re-parsing of outputs are not decided.",
+         "rules), taproot key extraction / leaf enumeration / Huffman tree are not decided; the end-to-end rule is a "
+         "bounded family.",
     tech=STATIC + "one-level symbolic evaluation of the dynamic programme with opaque sub-results + truth-table "
                   "equivalence of lifted templates; decision tables of the gates; rule-pairing table of the casts",
     engine="symx+tablex")
